@@ -1148,10 +1148,11 @@ class ImportanceNestedSampler(BaseNestedSampler):
             new_points,
             unit_hypercube=True,
         )
-        logger.debug(
-            "Min. log-likelihood of new samples: "
-            f"{np.min(new_points['logL'])}"
-        )
+        if new_points.size:
+            logger.debug(
+                "Min. log-likelihood of new samples: "
+                f"{np.min(new_points['logL'])}"
+            )
         if not np.isfinite(new_points["logL"]).all():
             logger.warning("Log-likelihood contains infs")
 
